@@ -97,6 +97,28 @@ Theorem C07_numeric_sort_neg_zero :
 Proof. exact numeric_sort_neg_zero. Qed.
 Print Assumptions C07_numeric_sort_neg_zero.
 
+(* ---------- sorting by a multi-valued field, SortField.Mode min / max (Numeric/ProofsSortMode.v) ----------
+   [filter_terms_by_mode] is the transcription of search/sort.go filterTermsByMode in Collect/TopN.v;
+   [enc0 x] is the shift-0 term of the sortable int64 x. Whatever order the document's terms are
+   visited in, mode min / max yields the term of the numerically least / greatest value. *)
+From Coq Require Permutation.
+From Verif Require Collect.TopN Numeric.ProofsSortMode.
+
+Theorem C07_sort_mode_key : forall x l mf d,
+  Forall (fun y => in_int64 y = true) (x :: l) ->
+  Collect.TopN.filter_terms_by_mode 1 mf d (map ProofsSortMode.enc0 (x :: l)) = ProofsSortMode.enc0 (fold_left Z.min l x) /\
+  Collect.TopN.filter_terms_by_mode 2 mf d (map ProofsSortMode.enc0 (x :: l)) = ProofsSortMode.enc0 (fold_left Z.max l x).
+Proof. exact ProofsSortMode.sort_mode_key. Qed.
+Print Assumptions C07_sort_mode_key.
+
+Theorem C07_sort_mode_key_order_independent : forall vs vs' mf d mode,
+  mode = 1 \/ mode = 2 ->
+  Forall (fun y => in_int64 y = true) vs -> Permutation.Permutation vs vs' ->
+  Collect.TopN.filter_terms_by_mode mode mf d (map ProofsSortMode.enc0 vs) =
+  Collect.TopN.filter_terms_by_mode mode mf d (map ProofsSortMode.enc0 vs').
+Proof. exact ProofsSortMode.sort_mode_key_order_independent. Qed.
+Print Assumptions C07_sort_mode_key_order_independent.
+
 (* ---------- link to Flocq's IEEE-754 semantics (Numeric/FlocqLink.v) ----------
    Required without Import so that [is_nan] etc. keep meaning the Model's definitions below.
    The real-number axioms reported here come only from Flocq's own validity proof inside
